@@ -20,6 +20,8 @@ def gen(rng, tid, mode):
     cfg = {"req": rng.choice([1, 3, 1000]), "seg_size": rng.choice([600, 1000000]), "cache": False}
     if mode != "off":
         cfg["enc_key"] = KEY1
+    if mode == "corrupt":
+        cfg["cache"] = False
     ops = [{"op": "create_stream", "name": sname, "id": 1}, {"op": "create_topic", "stream": 1, "name": tname, "parts": 1, "id": 1},
            {"op": "create_user", "user": uname, "password": "secret-password-xyz"}]
     sent = []
@@ -42,11 +44,18 @@ def gen(rng, tid, mode):
     long_payloads = [[i, l] for i, l in sent if l >= 12]
     ops.append({"op": "grep", "needles": [sname, tname, uname, "secret-password-xyz"], "payloads": long_payloads})
     marks = {"sent": sent, "grep1": len(ops) - 1, "poll1": len(ops) - 3, "cat1": len(ops) - 2}
-    if mode == "same":
+    if mode == "corrupt":
+        # one stored payload byte is damaged while the server is down: the record no longer decrypts
+        ops.append({"op": "restart"})
+        ops.append({"op": "corrupt_last_log", "stream": 1, "topic": 1, "partition": 1})
+        ops.append({"op": "restart"})
+        ops.append({"op": "poll", "stream": 1, "topic": 1, "partition": 1, "kind": "offset", "value": 0, "count": 1000})
+        marks.update({"corrupt_poll": len(ops) - 1, "restart_same": len(ops) - 2})
+    elif mode == "same":
         ops.append({"op": "restart"})
         ops.append({"op": "poll", "stream": 1, "topic": 1, "partition": 1, "kind": "offset", "value": 0, "count": 1000})
         ops.append({"op": "catalog"})
-        marks.update({"poll2": len(ops) - 2, "cat2": len(ops) - 1})
+        marks.update({"poll2": len(ops) - 2, "cat2": len(ops) - 1, "restart_same": len(ops) - 3})
     elif mode == "wrong":
         ops.append({"op": "restart", "cfg": {"enc_key": KEY2}})
         ops.append({"op": "poll", "stream": 1, "topic": 1, "partition": 1, "kind": "offset", "value": 0, "count": 1000})
@@ -62,7 +71,7 @@ def run(out, tier, seed, gate):
     t0 = time.time()
     rng = util.Rng(seed * 70001 + 19)
     n = 24 if tier == "quick" else 300
-    traces = [gen(rng, "C19-g%d" % i, ["same", "same", "wrong", "off"][i % 4]) for i in range(n)]
+    traces = [gen(rng, "C19-g%d" % i, ["same", "same", "wrong", "off", "corrupt"][i % 5]) for i in range(n)]
     impl = harness.run_traces("srv", [{a: b for a, b in t.items() if a not in ("marks", "mode")} for t in traces], shards=min(8, n))
     stats = {"polls_checked": 0, "messages_checked": 0, "leaks": 0, "clear_found_when_off": 0, "wrong_key_reported": 0, "files_searched": 0, "bytes_searched": 0}
     reported = 0
@@ -93,6 +102,15 @@ def run(out, tier, seed, gate):
                     bad("lossy", "a poll does not return exactly the payloads that were sent (%s)" % key, {"response": o, "sent": want})
                     break
                 stats["messages_checked"] += len(want)
+        if "restart_same" in m and m["restart_same"] < len(outs) and outs[m["restart_same"]].get("r") != "ok":
+            bad("restart", "a restart with the same key fails", {"response": outs[m["restart_same"]]})
+            continue
+        if "corrupt_poll" in m and m["corrupt_poll"] < len(outs):
+            o = outs[m["corrupt_poll"]]
+            stats["corrupted_records"] = stats.get("corrupted_records", 0) + 1
+            if o.get("r") == "ok":
+                bad("undecryptable", "a stored record that no longer decrypts is not reported: the poll answers OK (with %d of %d messages)" % (len(o.get("msgs", [])), len(want)), {"response": o})
+                continue
         if "cat2" in m and m["cat2"] < len(outs) and outs[m["cat1"]] != outs[m["cat2"]]:
             bad("catalog", "the catalogue after a restart with the same key differs", {"before": outs[m["cat1"]], "after": outs[m["cat2"]]})
         g = outs[m["grep1"]]
